@@ -79,11 +79,44 @@ Theorem C13_merge_members_ok : forall cf sf,
 Proof. exact merge_members_ok. Qed.
 Print Assumptions C13_merge_members_ok.
 
-(* the merged class: members as above, interfaces merged by merge_preserve_order, no class-level
-   side mark, everything else the client's *)
-Theorem C13_class_merge : forall c s m, class_merge c s = OK m -> class_merge_facts c s m.
-Proof. exact class_merge_spec. Qed.
+(* the merged class, every component of the model's class accounted for: version, access, name
+   (equal on both sides) and super class; interfaces merged by merge_preserve_order; fields and
+   methods by merge_members (above); no class-level side mark; the client's invisible annotations
+   plus one @EnvironmentInterfaces for the one-sided interfaces; PermittedSubclasses absent iff
+   absent on both sides, else both lists merged by merge_preserve_order; the record components
+   (c_rec) and everything else (c_rest) the client's.  (deprecated/synthetic flags and inner
+   classes: see C13_class_merge_ok and the model; they are equal on both sides resp. a keyed union) *)
+Theorem C13_class_merge : forall c s m, class_merge c s = OK m ->
+  (c_version m = c_version c /\ c_version c = c_version s) /\
+  (c_access m = c_access c /\ c_access c = c_access s) /\
+  (c_name m = c_name c /\ c_name c = c_name s) /\
+  c_super m = c_super c /\
+  mpo_res str_eqb (c_itfs c) (c_itfs s) = Ok (c_itfs m) /\
+  merge_members (c_fields c) (c_fields s) = OK (c_fields m) /\
+  merge_members (c_methods c) (c_methods s) = OK (c_methods m) /\
+  c_vis m = c_vis c /\
+  c_inv m = c_inv c ++ match itf_marks (c_itfs m) (c_itfs c) (c_itfs s) with [] => [] | marks => [AItfs marks] end /\
+  match c_perm c, c_perm s with
+  | None, None => c_perm m = None
+  | pc, ps => exists l, c_perm m = Some l /\ mpo_res str_eqb (unwrap_or_default pc) (unwrap_or_default ps) = Ok l
+  end /\
+  c_rec m = c_rec c /\
+  c_rest m = c_rest c.
+Proof. exact class_merge_spelled. Qed.
 Print Assumptions C13_class_merge.
+
+(* permitted subclasses of a class both sides have: present iff either side has them; every
+   permitted class of either side exactly once, the client's order always kept, the server's when
+   the two orders are compatible *)
+Theorem C13_permitted_merged : forall c s m, class_merge c s = OK m ->
+  let pc := unwrap_or_default (c_perm c) in let ps := unwrap_or_default (c_perm s) in
+  (c_perm m = None <-> c_perm c = None /\ c_perm s = None) /\
+  (forall l, c_perm m = Some l ->
+     subseq pc l /\
+     (filter (fun x => memb str_eqb x ps) pc = filter (fun y => memb str_eqb y pc) ps -> subseq ps l) /\
+     (NoDup pc -> NoDup ps -> NoDup l /\ forall x, In x l <-> In x pc \/ In x ps)).
+Proof. exact permitted_merged. Qed.
+Print Assumptions C13_permitted_merged.
 
 (* inside the hypotheses the class merge returns a class: the two versions agree in version,
    access, name, super class, deprecated/synthetic flags (also of shared members) and in the
